@@ -358,5 +358,5 @@ func fieldOf(tv reflect.Value, name string) any {
 }
 
 func TestExpand(t *testing.T) {
-	vt.Run(t, cX, vt.N(40000, 2000000), genX, runX)
+	vt.Run(t, cX, vt.N(32000, 2000000), genX, runX)
 }
